@@ -247,6 +247,28 @@ func c19Case(rep *verifkit.Report, ci int, point string, delayMS int, seed int64
 		if !waitCond(6*time.Second, func() bool { return peer.connections() > before && e.node.blocks.LastHeight() >= nt.Height }) {
 			rep.Finding(ci, "C19/no-resume-after-lost-connection", fmt.Sprintf("trusted connection closed at height %d; after 6 s: connections %d->%d, node height %d, peer height %d", tip.Height, before, peer.connections(), e.node.blocks.LastHeight(), nt.Height), map[string]interface{}{"callbacks": e.log.strings(mark)})
 		}
+		// resumption: every block the peer added is announced to the handlers (once the node holds it)
+		waitCond(2*time.Second, func() bool {
+			seen := 0
+			for _, ev := range e.log.snapshot()[mark:] {
+				if ev.Kind == "headers" && ev.Handler == 0 && ev.Height > tip.Height {
+					seen++
+				}
+			}
+			return seen >= nt.Height-tip.Height
+		})
+		newSeen := map[int]bool{}
+		for _, ev := range e.log.snapshot()[mark:] {
+			if ev.Kind == "headers" && ev.Handler == 0 {
+				newSeen[ev.Height] = true
+			}
+		}
+		for h := tip.Height + 1; h <= nt.Height && e.node.blocks.LastHeight() >= nt.Height; h++ {
+			if !newSeen[h] {
+				rep.Finding(ci, "C19/block-not-delivered-after-reconnect", fmt.Sprintf("after the trusted connection was re-established the node reached height %d but block %d was never announced to the handlers", e.node.blocks.LastHeight(), h), map[string]interface{}{"callbacks": e.log.strings(mark)})
+				break
+			}
+		}
 		for _, ev := range e.log.snapshot()[mark:] {
 			if ev.Kind == "headers" && ev.Handler == 0 && announcedBefore[fmt.Sprintf("%d/%s", ev.Height, ev.Header.BlockHash())] {
 				rep.Finding(ci, "C19/block-reannounced-after-reconnect", fmt.Sprintf("block %d was announced to handlers again after the trusted connection was re-established", ev.Height), map[string]interface{}{"callbacks": e.log.strings(0)})
